@@ -6,8 +6,10 @@ v5: rumqttc/src/v5/eventloop.rs) together with `MqttState::outgoing_ping` /
 
 What the code does (read off the text, confirmed on the real loop by `vh cloop`):
 * `poll()` creates `keepalive_timeout = sleep(keep_alive)` when the connection is established
-  (CONNACK read) and the field is `None`; v4 only if `keep_alive != 0`, v5 unconditionally
-  (v5's `keep_alive` is first overwritten by the CONNACK's `server_keep_alive`).
+  (CONNACK read), the field is `None` and `keep_alive != 0`; the keep-alive branch of `select!`
+  carries the same `!keep_alive.is_zero()` guard. Both loops (v5's `keep_alive` is first
+  overwritten by the CONNACK's `server_keep_alive`; until the repair "the MQTT 5 client pinged
+  and failed at once when the broker set the keep alive to zero" the v5 loop lacked the guard).
 * the timer branch of `select!` is the ONLY place that moves the deadline:
   `reset(Instant::now() + keep_alive)`; neither outgoing requests nor incoming packets touch it
   ("We generate pings irrespective of network activity").
@@ -23,11 +25,8 @@ inductive Ver where
   | v4 | v5
 deriving DecidableEq, Repr
 
-/-- v4 arms the timer only for a non-zero keep-alive, v5 always -/
-def armed (ver : Ver) (k : Nat) : Bool :=
-  match ver with
-  | .v4 => k != 0
-  | .v5 => true
+/-- the timer is armed (and its branch enabled) only for a non-zero keep-alive, in both loops -/
+def armed (_ver : Ver) (k : Nat) : Bool := k != 0
 
 structure TState where
   ver : Ver
@@ -68,7 +67,7 @@ inductive Lab where
   | resp
 deriving DecidableEq, Repr
 
-/-- is the keep-alive branch ready? (`keepalive_timeout` elapsed; v4 guard `!keep_alive.is_zero()`) -/
+/-- is the keep-alive branch ready? (`keepalive_timeout` elapsed; guard `!keep_alive.is_zero()`) -/
 def due (s : TState) : Bool :=
   s.connected && armed s.ver s.keepAlive &&
   match s.deadline with
